@@ -374,7 +374,7 @@ func pickVolume(rng *rand.Rand, quick bool) int {
 	}
 }
 
-var executeModes = []string{"execute", "execute-default-msgs", "execute-env", "new-execute", "new-env-execute", "output", "output-env", "start"}
+var executeModes = []string{"execute", "execute-default-msgs", "execute-env", "new-execute", "new-env-execute", "output", "output-env", "start", "new-execute-again"}
 
 // genCase builds case number i of the seeded list.
 func genCase(rng *rand.Rand, i int, quick bool) *caseSpec {
@@ -568,6 +568,10 @@ func fixedCases() []*caseSpec {
 		slow("4000 lines at once, loggers need 0.5 ms per message", "execute", 0, 4000, 500),
 		slow("3000 lines at once, loggers need 0.8 ms per message (Output)", "output", 0, 3000, 800),
 		slow("3000 lines at once, loggers need 0.6 ms per message, exit 9", "execute", 9, 3000, 600),
+	)
+	l = append(l,
+		mk("the same Subprocess value executed a second time, exit 0", "new-execute-again", 0, "", mkOps(1, "o1\n", 0, 2, "e1\n", 0)),
+		mk("the same Subprocess value executed a second time, exit 6", "new-execute-again", 6, "", mkOps(1, "o1\n", 0)),
 	)
 	for i, cs := range l {
 		cs.Index = -1 - i
